@@ -206,8 +206,13 @@ def prefixes_of(names) -> list:
     return out
 
 
-def enum_obligation(me, wd, origin) -> dict:
-    """wire numbers/names == model numbers/names (modulo ONE common wire-name prefix), no aliases."""
+def enum_obligation(me, wd, origin, known_points=()) -> dict:
+    """wire numbers/names == model numbers/names (modulo ONE common wire-name prefix), no aliases.
+
+    `known_points`: mismatch points attributed to a listed known finding -- ("alias", number, name, name)
+    or ("name", number, name) -- are excluded from the query so that any OTHER mismatch still surfaces."""
+    kp_alias = [(p[1], frozenset(p[2:4])) for p in known_points if p[0] == "alias"]
+    kp_name = [(p[1], p[2]) for p in known_points if p[0] == "name"]
     I = _Intern()
     wire = [(v.name, v.number) for v in wd.values]
     model = [(name, int(member.value)) for name, member in me.__members__.items()]  # includes aliases
@@ -221,6 +226,9 @@ def enum_obligation(me, wd, origin) -> dict:
     Mm = [(num, I(nm)) for nm, num in model]
     s.push()
     s.add(z3.Or(z3.And(_rel2(Mm, n, a), _rel2(Mm, n, b), a != b), z3.And(_rel2(Wm, n, a), _rel2(Wm, n, b), a != b)))
+    for num, nms in kp_alias:
+        x, y = sorted(nms)
+        s.add(z3.Not(z3.And(n == num, z3.Or(z3.And(a == I(x), b == I(y)), z3.And(a == I(y), b == I(x))))))
     st, sec = _check(s)
     queries += 1
     res["seconds"] += sec
@@ -239,6 +247,8 @@ def enum_obligation(me, wd, origin) -> dict:
         nk, sk = z3.Int(f"n{k}"), z3.Int(f"s{k}")
         Wp = [(num, I(nm[len(p):])) for nm, num in wire]
         s.add(z3.Xor(_rel2(Wp, nk, sk), _rel2(Mm, nk, sk)))
+        for num, nm in kp_name:
+            s.add(z3.Not(z3.And(nk == num, sk == I(nm))))
         wit.append((p, nk, sk))
     st, sec = _check(s)
     queries += 1
@@ -251,6 +261,8 @@ def enum_obligation(me, wd, origin) -> dict:
     else:
         res["status"] = st
     res["sample"] = {"wire": wire[:4], "model": model[:4], "prefixes": prefs}
+    if known_points:
+        res["what"] += f" -- EXCLUDING the points of the listed known finding: {[list(p) for p in known_points]}"
     return res
 
 
